@@ -81,6 +81,19 @@ def syndromes_bits(codewords, ne):
     return res
 
 
+def syndromes_int(codewords, ne):
+    """concrete fast path: list of ne syndrome bytes"""
+    n = len(codewords)
+    out = []
+    for j in range(ne):
+        acc = 0
+        for i, c in enumerate(codewords):
+            if c:
+                acc ^= EXP[(LOG[c] + j * (n - 1 - i)) % 255]
+        out.append(acc)
+    return out
+
+
 def remainder_bits(data, ne):
     """Reed-Solomon parity of `data` (list of bytes int / symbolic) as ne lists of 8 bits: remainder of data(x) x^ne mod g(x)"""
     g = generator(ne)[1:]
